@@ -22,8 +22,9 @@ VARIABLES
   oh,      \* <<hash, pawn hash>> of the last observed snapshot
   bad,     \* recorded mismatches (first 60)
   nbad,    \* number of mismatches
-  ntr      \* indices of gen events on non-trivial positions
-vars == <<l, pos, lg, stack, oh, bad, nbad, ntr>>
+  ntr,     \* indices of events that are non-trivial for their property (see NonTrivial*, per event kind)
+  sct      \* cache: SAN cores of the legal moves of one position (computed at the first SAN lookup there)
+vars == <<l, pos, lg, stack, oh, bad, nbad, ntr, sct>>
 
 Ev == Rec[l]
 ToS(seq) == {seq[i] : i \in 1 .. Len(seq)}
@@ -140,11 +141,12 @@ MoveOfUci(L, u) == CHOOSE m \in L : Uci(m) = u
 Denotes(L, s) == \E m \in L : Uci(m) = Trim(s)
 
 \* state unchanged by a read-only call (C13 for rejected input, C03 for internal make/unmake)
-Unchanged(prop) ==
+Unchanged(nontrivial) ==
   /\ LET np == Resync(pos, Ev.snap)
      IN pos' = np /\ lg' = IF np = pos THEN lg ELSE Legal(np)
   /\ oh' = <<Ev.snap.h, Ev.snap.ph>>
-  /\ UNCHANGED <<stack, ntr>>
+  /\ ntr' = IF nontrivial THEN ntr \cup {l} ELSE ntr
+  /\ UNCHANGED stack
 
 FindUci ==
   /\ Ev.ev = "find_uci"
@@ -152,7 +154,7 @@ FindUci ==
        << <<(Ev.st = "ok") = Denotes(lg, Ev.s), "C13", "find_uci accepts exactly the legal moves", ToString(Denotes(lg, Ev.s))>>,
           <<Ev.st = "ok" => Ev.mv = Trim(Ev.s), "C13", "find_uci returns the move it was given", Trim(Ev.s)>> >>
        \o SnapChecks(pos, Ev.snap, "C13"))
-  /\ Unchanged("C13")
+  /\ Unchanged(~Denotes(lg, Ev.s))
 
 UciToPgn ==
   /\ Ev.ev = "uci_to_pgn"
@@ -162,19 +164,38 @@ UciToPgn ==
        << <<(Ev.st = "ok") = d, "C13", "uci_to_pgn accepts exactly the legal moves", ToString(d)>>,
           <<(Ev.st = "ok" /\ d) => Ev.san = exp, "C14", "SAN text of " \o Ev.s, exp>> >>
        \o SnapChecks(pos, Ev.snap, "C13"))
-  /\ Unchanged("C13")
+  /\ Unchanged(~Denotes(lg, Ev.s))
 
+\* SanClass with the per-position table of SAN cores taken from the cache
 PgnToBb ==
   /\ Ev.ev = "pgn_to_bb"
-  /\ LET cl == SanClass(pos, lg, Ev.s)
-     IN Record(
-       << <<cl[1] = "accept" => (Ev.st = "ok" /\ Ev.mv = Uci(cl[2])), "C14", "standard SAN must parse to its move: " \o Ev.s,
-            IF cl[1] = "accept" THEN Uci(cl[2]) ELSE "">>,
-          <<cl[1] = "reject" => Ev.st = "err", "C14", "string denoting no legal move must be rejected: " \o Ev.s, "err">>,
-          <<(cl[1] = "dontcare" /\ Ev.st = "ok") => Ev.mv \in UciSet(cl[2]), "C14", "lenient reading must still be a move the string can denote: " \o Ev.s,
-            IF cl[1] = "dontcare" THEN ToString(UciSet(cl[2])) ELSE "">> >>
-       \o SnapChecks(pos, Ev.snap, "C13"))
-  /\ Unchanged("C13")
+  /\ LET tbl == IF sct.valid /\ sct.pos = pos THEN sct.t ELSE {<<m, SanCore(pos, lg, m)>> : m \in lg}
+         core == CoreOf(Ev.s)
+         suf == SuffixOf(Ev.s)
+         exact == {e[1] : e \in {x \in tbl : x[2] = core}}
+         loose == {m \in lg : core \in LooseForms(pos, m)}
+         cl == IF Cardinality(exact) = 1
+               THEN LET m == CHOOSE x \in exact : TRUE
+                    IN IF suf = "" \/ suf = CheckSuffix(pos, m) THEN <<"accept", m>> ELSE <<"dontcare", exact>>
+               ELSE IF loose = {} THEN <<"reject", {}>> ELSE <<"dontcare", loose>>
+     IN /\ Record(
+            << <<cl[1] = "accept" => (Ev.st = "ok" /\ Ev.mv = Uci(cl[2])), "C14", "standard SAN must parse to its move: " \o Ev.s,
+                 IF cl[1] = "accept" THEN Uci(cl[2]) ELSE "">>,
+               <<cl[1] = "reject" => Ev.st = "err", "C14", "string denoting no legal move must be rejected: " \o Ev.s, "err">>,
+               <<(cl[1] = "dontcare" /\ Ev.st = "ok") => Ev.mv \in UciSet(cl[2]), "C14", "lenient reading must still be a move the string can denote: " \o Ev.s,
+                 IF cl[1] = "dontcare" THEN ToString(UciSet(cl[2])) ELSE "">> >>
+            \o SnapChecks(pos, Ev.snap, "C13"))
+        /\ sct' = [valid |-> TRUE, pos |-> pos, t |-> tbl]
+        /\ Unchanged(cl[1] # "dontcare")
+
+\* a position is non-trivial for SAN if some legal move needs a disambiguator, a suffix, a promotion or castling
+SanNonTrivial(exp) ==
+  \E e \in exp :
+    LET t == e[2]
+        c == CoreOf(t)
+    IN \/ SuffixOf(t) # "" \/ Ch(c, 1) = "O"
+       \/ \E i \in 1 .. Len(c) : Ch(c, i) = "="
+       \/ Ch(c, 1) \in {"N", "B", "R", "Q", "K"} /\ Len(c) > (IF \E i \in 1 .. Len(c) : Ch(c, i) = "x" THEN 4 ELSE 3)
 
 SanAll ==
   /\ Ev.ev = "san_all"
@@ -187,7 +208,7 @@ SanAll ==
           <<\A i \in 1 .. Len(rows) : rows[i][3] = rows[i][1], "C14", "pgn_to_bb(uci_to_pgn(m)) = m",
             ToString({rows[i] : i \in {j \in 1 .. Len(rows) : rows[j][3] # rows[j][1]}})>> >>
        \o SnapChecks(pos, Ev.snap, "C03"))
-  /\ Unchanged("C03")
+  /\ Unchanged(SanNonTrivial({<<Uci(m), San(pos, lg, m)>> : m \in lg}))
 
 MakeUci ==
   /\ Ev.ev = "make_uci"
@@ -200,7 +221,7 @@ MakeUci ==
         /\ pos' = rp /\ lg' = IF rp = pos THEN lg ELSE Legal(rp)
         /\ stack' = <<>>
         /\ oh' = <<Ev.snap.h, Ev.snap.ph>>
-        /\ UNCHANGED ntr
+        /\ ntr' = IF ~d THEN ntr \cup {l} ELSE ntr
 
 \* all-or-nothing: fold the list; the first undenoted string voids everything
 RECURSIVE PlayAll(_, _, _)
@@ -221,7 +242,7 @@ MakeAllUci ==
         /\ pos' = rp /\ lg' = IF rp = pos THEN lg ELSE Legal(rp)
         /\ stack' = <<>>
         /\ oh' = <<Ev.snap.h, Ev.snap.ph>>
-        /\ UNCHANGED ntr
+        /\ ntr' = IF ~r.ok THEN ntr \cup {l} ELSE ntr
 
 UciBatch ==
   /\ Ev.ev = "uci_batch"
@@ -230,7 +251,7 @@ UciBatch ==
             ToString((ToS(Ev.ok) \ UciSet(lg)) \cup (UciSet(lg) \ ToS(Ev.ok)))>>,
           <<Ev.changed = <<>>, "C13", "a find_uci call changed the position", "<<>>">> >>
        \o SnapChecks(pos, Ev.snap, "C13"))
-  /\ Unchanged("C13")
+  /\ Unchanged(TRUE)
 
 Perft ==
   /\ Ev.ev = "perft"
@@ -240,23 +261,24 @@ Perft ==
      IN Record(
        << <<got = exp /\ Len(rows) = Cardinality(exp), "C01", "perft per root move", ToString(exp \ got)>> >>
        \o SnapChecks(pos, Ev.snap, "C03"))
-  /\ Unchanged("C03")
+  /\ Unchanged(FALSE)
 
 MakeMissing ==
   /\ Ev.ev = "make_missing"
   /\ Record(<< <<\A m \in lg : Uci(m) # Ev.uci, "C01", "legal move not offered by the generator", Ev.uci>> >>)
   /\ UNCHANGED <<pos, lg, stack, oh, ntr>>
 
-TextEvents == FindUci \/ UciToPgn \/ PgnToBb \/ SanAll \/ MakeUci \/ MakeAllUci \/ UciBatch \/ Perft \/ MakeMissing
+TextEvents == FindUci \/ UciToPgn \/ SanAll \/ MakeUci \/ MakeAllUci \/ UciBatch \/ Perft \/ MakeMissing
 
 Next ==
   /\ l <= Len(Rec)
   /\ l' = l + 1
-  /\ \/ Load \/ Gen \/ Make \/ Unmake \/ Panic \/ TextEvents
+  /\ \/ (Load \/ Gen \/ Make \/ Unmake \/ Panic \/ TextEvents) /\ UNCHANGED sct
+     \/ PgnToBb
 
 Init ==
   /\ l = 1 /\ pos = NoPos /\ lg = {} /\ stack = <<>> /\ oh = <<Zero64, Zero64>>
-  /\ bad = <<>> /\ nbad = 0 /\ ntr = {}
+  /\ bad = <<>> /\ nbad = 0 /\ ntr = {} /\ sct = [valid |-> FALSE, pos |-> NoPos, t |-> {}]
 
 Spec == Init /\ [][Next]_vars
 
